@@ -48,26 +48,10 @@ func readDump(path string, timeout time.Duration) ([]int, bool) {
 func init() {
 	// args: nhook hook texts..., link, mtPresent essence supertype subtype
 	// result: argc argv... stdin   (as recorded by verifdump)   or -1 when the hook never ran
-	register("hook", func(a []int) []int {
-		r := &reader{toks: a}
-		n := r.next()
-		hook := make([]string, n)
-		for i := range hook {
-			hook[i] = r.text()
-		}
-		link := r.text()
-		var mt *mime.MediaType
-		if r.next() != 0 {
-			mt = &mime.MediaType{}
-			mt.Essence = r.text()
-			mt.Supertype = r.text()
-			mt.Subtype = r.text()
-		}
+	// one external open under the installed configuration; the recorded argv (argv[0] by base name) and stdin, or -1
+	openOnce := func(link string, mt *mime.MediaType) []int {
 		dump := os.Getenv("VERIF_DUMP_FILE")
 		os.Remove(dump)
-		saved := config.Parsed.Media.Hook
-		config.Parsed.Media.Hook = hook
-		defer func() { config.Parsed.Media.Hook = saved }()
 		s := hookUI()
 		s.VerifOpenExternally(link, mt)
 		wait := 3 * time.Second
@@ -96,15 +80,57 @@ func init() {
 			}
 			base := []rune(filepath.Base(string(rs)))
 			rest := toks[2+cnt:]
-			toks = append([]int{toks[0], len(base)}, func() []int {
-				o := []int{}
-				for _, c := range base {
-					o = append(o, int(c))
-				}
-				return o
-			}()...)
-			toks = append(toks, rest...)
+			head := []int{toks[0], len(base)}
+			for _, c := range base {
+				head = append(head, int(c))
+			}
+			toks = append(head, rest...)
 		}
 		return toks
+	}
+	readMT := func(r *reader) *mime.MediaType {
+		if r.next() == 0 {
+			return nil
+		}
+		mt := &mime.MediaType{}
+		mt.Essence = r.text()
+		mt.Supertype = r.text()
+		mt.Subtype = r.text()
+		return mt
+	}
+	register("hook", func(a []int) []int {
+		r := &reader{toks: a}
+		n := r.next()
+		hook := make([]string, n)
+		for i := range hook {
+			hook[i] = r.text()
+		}
+		link := r.text()
+		mt := readMT(r)
+		saved := config.Parsed.Media.Hook
+		config.Parsed.Media.Hook = hook
+		defer func() { config.Parsed.Media.Hook = saved }()
+		return openOnce(link, mt)
+	})
+	// hookseq: ONE configuration installed once, then several opens in the same session (different links and media types):
+	// args: nhook hook..., nopens, per open: link, mtPresent essence supertype subtype ; result: the recordings one after another
+	register("hookseq", func(a []int) []int {
+		r := &reader{toks: a}
+		n := r.next()
+		hook := make([]string, n)
+		for i := range hook {
+			hook[i] = r.text()
+		}
+		saved := config.Parsed.Media.Hook
+		config.Parsed.Media.Hook = hook
+		defer func() { config.Parsed.Media.Hook = saved }()
+		out := []int{}
+		k := r.next()
+		for i := 0; i < k; i++ {
+			link := r.text()
+			mt := readMT(r)
+			out = append(out, openOnce(link, mt)...)
+		}
+		return out
 	})
 }
